@@ -566,3 +566,149 @@ theorem cubic_hseg_cardano (a b c d : Pt ℝ) (lx px rx py : ℝ) (l0 l1 l2 l3 r
   exact this
 
 end C11B
+
+/-! ### (Hseg) for a quadratic segment, from the regenerated solver -/
+
+namespace C11B
+open Gen C05M Winding Inter Roots
+
+theorem inUnit_nodup (x : ℝ) : (inUnit x).Nodup := by unfold inUnit; split_ifs <;> simp
+
+theorem inUnit_append_nodup (x y : ℝ) (h : x ≠ y) : (inUnit x ++ inUnit y).Nodup := by
+  unfold inUnit; split_ifs <;> simp [h]
+
+/-- the solver never lists a root twice -/
+theorem quadraticRoots_nodup (a b c : ℝ) : (quadraticRoots Real.sqrt a b c).Nodup := by
+  rw [quadraticRoots_eq_model]
+  unfold qrModel
+  by_cases ha : a = 0
+  · rw [if_pos ha]; split_ifs
+    · exact inUnit_nodup _
+    · exact List.nodup_nil
+  rw [if_neg ha]
+  by_cases hd : b * b - 4 * a * c > 0
+  · rw [if_pos hd]
+    have hs : Real.sqrt (b * b - 4 * a * c) * Real.sqrt (b * b - 4 * a * c) = b * b - 4 * a * c := Real.mul_self_sqrt (le_of_lt hd)
+    have hpos : 0 < Real.sqrt (b * b - 4 * a * c) := Real.sqrt_pos.mpr hd
+    set sd := Real.sqrt (b * b - 4 * a * c)
+    have key : ∀ q : ℝ, q ≠ 0 → 0 < q * q - a * c → (qrBranch a c q).Nodup := by
+      intro q hq hpos'
+      unfold qrBranch
+      rw [if_pos hq]
+      have hne : c / q ≠ q / a := by
+        intro h
+        rw [div_eq_div_iff hq ha] at h
+        nlinarith
+      split_ifs
+      · exact inUnit_append_nodup _ _ hne
+      · exact inUnit_append_nodup _ _ (Ne.symm hne)
+    by_cases hb : b ≥ 0
+    · rw [if_pos hb]
+      apply key
+      · intro h; linarith
+      · have : -(b + sd) / 2 * (-(b + sd) / 2) - a * c = sd * (sd + b) / 2 := by linear_combination (-1 / 4) * hs
+        rw [this]; positivity
+    · rw [if_neg hb]
+      push Not at hb
+      apply key
+      · intro h; linarith
+      · have : -(b - sd) / 2 * (-(b - sd) / 2) - a * c = sd * (sd - b) / 2 := by linear_combination (-1 / 4) * hs
+        rw [this]
+        have : 0 < sd - b := by linarith
+        positivity
+  · rw [if_neg hd]; exact List.nodup_nil
+
+/-- the y-polynomial `QuadraticBezier._findRoots('y')` solves -/
+noncomputable def ypolyQ (q0 q1 q2 : Pt ℝ) (t : ℝ) : ℝ :=
+  quad_rootcoeffs_y_a q0.x q0.y q1.x q1.y q2.x q2.y * t * t + quad_rootcoeffs_y_b q0.x q0.y q1.x q1.y q2.x q2.y * t
+    + quad_rootcoeffs_y_c q0.x q0.y q1.x q1.y q2.x q2.y
+
+structure QuadOK (q0 q1 q2 : Pt ℝ) : Prop where
+  simple : ∀ t, 0 ≤ t → t ≤ 1 → ypolyQ q0 q1 q2 t = 0 →
+    2 * quad_rootcoeffs_y_a q0.x q0.y q1.x q1.y q2.x q2.y * t + quad_rootcoeffs_y_b q0.x q0.y q1.x q1.y q2.x q2.y ≠ 0
+  e0 : ypolyQ q0 q1 q2 0 ≠ 0
+  e1 : ypolyQ q0 q1 q2 1 ≠ 0
+
+/-- **what `QuadraticBezier._findRoots('y')` returns is the increasing, repetition-free list of exactly the parameters in (0, 1) at
+    which the y-polynomial vanishes**, when every root in [0, 1] is simple and neither end is a root -/
+theorem quad_root_list (q0 q1 q2 : Pt ℝ) (ok : QuadOK q0 q1 q2) :
+    let L := curveLineT Real.sqrt (Seg.quad q0 q1 q2) []
+    L.Pairwise (· < ·) ∧ (∀ t ∈ L, 0 < t ∧ t < 1) ∧ ∀ t, 0 < t → t < 1 → (ypolyQ q0 q1 q2 t = 0 ↔ t ∈ L) := by
+  intro L
+  set A := quad_rootcoeffs_y_a q0.x q0.y q1.x q1.y q2.x q2.y with hA
+  set B := quad_rootcoeffs_y_b q0.x q0.y q1.x q1.y q2.x q2.y with hB
+  set C := quad_rootcoeffs_y_c q0.x q0.y q1.x q1.y q2.x q2.y with hC
+  have hL : L = sortK (quadraticRoots Real.sqrt A B C) := rfl
+  have hmem : ∀ t, t ∈ L ↔ (0 ≤ t ∧ t ≤ 1) ∧ A * t * t + B * t + C = 0 ∧ ((A = 0 ∧ B ≠ 0) ∨ (A ≠ 0 ∧ B * B - 4 * A * C > 0)) := by
+    intro t; rw [hL, C05.mem_sortK, quadraticRoots_mem_iff]
+  -- a root with non-vanishing derivative is of the solver's "simple" type
+  have htype : ∀ t, A * t * t + B * t + C = 0 → 2 * A * t + B ≠ 0 → ((A = 0 ∧ B ≠ 0) ∨ (A ≠ 0 ∧ B * B - 4 * A * C > 0)) := by
+    intro t hr hd
+    by_cases ha : A = 0
+    · left; refine ⟨ha, ?_⟩
+      rw [ha] at hd; simpa using hd
+    · right; refine ⟨ha, ?_⟩
+      have : B * B - 4 * A * C = (2 * A * t + B) ^ 2 := by linear_combination (-4 * A) * hr
+      rw [this]; positivity
+  have hopen : ∀ t ∈ L, 0 < t ∧ t < 1 := by
+    intro t ht
+    obtain ⟨⟨a0, a1⟩, hr, _⟩ := (hmem t).mp ht
+    constructor
+    · apply lt_of_le_of_ne a0
+      rintro rfl
+      apply ok.e0; simp only [ypolyQ]; linarith [hr]
+    · apply lt_of_le_of_ne a1
+      rintro rfl
+      apply ok.e1; simp only [ypolyQ]; linarith [hr]
+  refine ⟨?_, hopen, ?_⟩
+  · have hsorted : L.Pairwise (· ≤ ·) := by rw [hL]; exact C05.sortK_sorted _
+    have hnodup : L.Nodup := by
+      rw [hL]; unfold sortK
+      rw [List.Perm.nodup_iff (List.mergeSort_perm _ _)]
+      exact quadraticRoots_nodup A B C
+    exact (List.pairwise_and_iff.mpr ⟨hsorted, hnodup⟩).imp (fun h => lt_of_le_of_ne h.1 h.2)
+  · intro t t0 t1
+    constructor
+    · intro hr
+      have hr' : A * t * t + B * t + C = 0 := hr
+      exact (hmem t).mpr ⟨⟨le_of_lt t0, le_of_lt t1⟩, hr', htype t hr' (ok.simple t (le_of_lt t0) (le_of_lt t1) hr)⟩
+    · intro ht; exact ((hmem t).mp ht).2.1
+
+/-- **(Hseg) for a quadratic segment, from the regenerated solver** — the analogue of `cubic_hseg_cardano` -/
+theorem quad_hseg (a b c : Pt ℝ) (lx px rx py : ℝ) (l0 l1 l2 r0 r1 r2 : Pt ℝ)
+    (okL : QuadOK l0 l1 l2) (okR : QuadOK r0 r1 r2)
+    (zL : ∀ t, ypolyQ l0 l1 l2 t = 0 ↔ ((Seg.quad a b c).eval t).y = py)
+    (zR : ∀ t, ypolyQ r0 r1 r2 t = 0 ↔ ((Seg.quad a b c).eval t).y = py)
+    (hl : ¬ isclose px lx ((1 : ℝ) / 1000000000) 0) (hr : ¬ isclose px rx ((1 : ℝ) / 1000000000) 0) (hlr : lx < rx)
+    (hsimple : ∀ t, 0 < t → t < 1 → ((Seg.quad a b c).eval t).y = py →
+      (C02E.dcoeffs (Seg.quad a b c)).2.1 * t * t + (C02E.dcoeffs (Seg.quad a b c)).2.2.1 * t + (C02E.dcoeffs (Seg.quad a b c)).2.2.2 ≠ 0)
+    (h0 : a.y ≠ py) (h1 : c.y ≠ py)
+    (hclear : ∀ t, 0 < t → t < 1 → ((Seg.quad a b c).eval t).y = py →
+      within t = true ∧ PClear lx px rx ((Seg.quad a b c).eval t).x) :
+    ((segHits Real.sqrt (Seg.quad a b c) lx px py (Seg.quad l0 l1 l2) []).length +
+     (segHits Real.sqrt (Seg.quad a b c) rx px py (Seg.quad r0 r1 r2) []).length) % 2 =
+      if Straddle a.y c.y py then 1 else 0 := by
+  obtain ⟨sL, inL, allL⟩ := quad_root_list l0 l1 l2 okL
+  obtain ⟨sR, inR, allR⟩ := quad_root_list r0 r1 r2 okR
+  set LL := curveLineT Real.sqrt (Seg.quad l0 l1 l2) [] with hLL
+  set LR := curveLineT Real.sqrt (Seg.quad r0 r1 r2) [] with hLR
+  have hsame : LR = LL := by
+    apply sorted_ext _ _ sR sL
+    intro t
+    constructor
+    · intro ht
+      obtain ⟨t0, t1⟩ := inR t ht
+      exact (allL t t0 t1).mp ((zL t).mpr ((zR t).mp ((allR t t0 t1).mpr ht)))
+    · intro ht
+      obtain ⟨t0, t1⟩ := inL t ht
+      exact (allR t t0 t1).mp ((zR t).mpr ((zL t).mp ((allL t t0 t1).mpr ht)))
+  have hallS : ∀ t, 0 < t → t < 1 → (((Seg.quad a b c).eval t).y = py ↔ t ∈ LL) := fun t t0 t1 =>
+    ⟨fun h => (allL t t0 t1).mp ((zL t).mpr h), fun h => (zL t).mp ((allL t t0 t1).mpr h)⟩
+  have := curve_hseg (Seg.quad a b c) (by simp [Seg.order, Seg.points]) lx px rx py (Seg.quad l0 l1 l2) (Seg.quad r0 r1 r2) [] [] LL
+    rfl hsame hl hr hlr sL inL hallS
+    (fun t ht => hsimple t (inL t ht).1 (inL t ht).2 ((hallS t (inL t ht).1 (inL t ht).2).mpr ht))
+    h0 h1
+    (fun t ht => hclear t (inL t ht).1 (inL t ht).2 ((hallS t (inL t ht).1 (inL t ht).2).mpr ht))
+  exact this
+
+end C11B
